@@ -10,6 +10,7 @@
 //!   C03 partitioner (partitioner.rs)
 //!   C06 retry     (retry.rs)      C07 page      (page.rs)     C10 break   (brk.rs)
 //!   C12 route     (route.rs) + tablet (tablet.rs)              C14 evict   (evict.rs)
+//!   C13 spec      (spec.rs)
 //!   C18 timestamp (timestamp.rs) + tsconn (tsconn.rs, one hooked connection)   C20 keyspace (keyspace.rs)
 //! Output line: a short summary (never compared with a model). A case that cannot reach its precondition (session
 //! build / pool fill on an overloaded machine) prints `e2e-skip <why>` and judges nothing - never an oracle failure.
@@ -27,6 +28,7 @@ pub mod refresh;
 pub mod retry;
 pub mod route;
 pub mod smoke;
+pub mod spec;
 pub mod tablet;
 pub mod timestamp;
 pub mod tsconn;
@@ -39,6 +41,7 @@ pub fn family_of(pid: &str) -> Option<&'static str> {
         "C07" => Some("page"),
         "C10" => Some("break"),
         "C12" => Some("route"),
+        "C13" => Some("spec"),
         "C14" => Some("evict"),
         "C18" => Some("timestamp"),
         "C19" => Some("refresh"),
@@ -56,6 +59,7 @@ pub fn generate(pid: &str, rng: &mut Rng, tier: Tier, emit: &mut dyn FnMut(Strin
         Some("page") => page::generate(rng, tier, emit),
         Some("partitioner") => partitioner::generate(rng, tier, emit),
         Some("refresh") => refresh::generate(rng, tier, emit),
+        Some("spec") => spec::generate(rng, tier, emit),
         Some("route") => {
             route::generate(rng, tier, emit);
             tablet::generate(rng, tier, emit);
@@ -83,6 +87,7 @@ pub fn run(_pid: &str, case: &str, ctx: &mut Ctx) -> String {
         "refresh" => refresh::run(&words[2..], ctx),
         "route" => route::run(&words[2..], ctx),
         "smoke" => smoke::run(&words[2..], ctx),
+        "spec" => spec::run(&words[2..], ctx),
         "tablet" => tablet::run(&words[2..], ctx),
         "timestamp" => timestamp::run(&words[2..], ctx),
         "tsconn" => tsconn::run(&words[2..], ctx),
